@@ -1,7 +1,6 @@
 package sim
 
 import (
-	"time"
 	"bytes"
 	"errors"
 	"fmt"
@@ -9,6 +8,7 @@ import (
 	"sort"
 	"strings"
 	"sync"
+	"time"
 
 	"github.com/hashicorp/raft"
 )
@@ -139,9 +139,9 @@ type Fault struct {
 // Disk is the durable state of one server across all its incarnations.
 type Disk struct {
 	StoreDelay time.Duration // set once before the first incarnation starts
-	w      *World
-	name   string
-	flavor Flavor
+	w          *World
+	name       string
+	flavor     Flavor
 
 	mu      sync.Mutex
 	epoch   int
